@@ -461,6 +461,11 @@ func evalFresh(d freshDesc) ev.Result {
 		ownerPub = &ownerKey.PublicKey
 	}
 	seen := map[string]bool{}
+	type live struct {
+		owner, device kex.Session
+		sek, svk      string
+	}
+	var alive []live
 	for i := 0; i < 3; i++ {
 		owner := suite.New(nil, cipher)
 		xA, err := owner.Parameter(rand.Reader, ownerPub)
@@ -489,6 +494,27 @@ func evalFresh(d freshDesc) ev.Result {
 		}
 		if len(svk) > 0 && bytes.Equal(sek, svk[:min(len(svk), len(sek))]) {
 			return ev.Failf("sek-equals-svk", "%s/%s: SEK and SVK overlap: %x %x", suite, cipher, sek, svk)
+		}
+		alive = append(alive, live{owner, device, string(sek), string(svk)})
+	}
+	// the sessions live side by side in one process (as concurrent onboardings do): completing
+	// later exchanges must not have touched the keys of earlier sessions, and each pair still talks
+	for i, l := range alive {
+		sek, svk := keysOf(l.owner)
+		if string(sek) != l.sek || string(svk) != l.svk {
+			return ev.Failf("keys-changed-by-later-session", "%s/%s: the keys of session #%d changed after sessions created later completed their exchange", suite, cipher, i)
+		}
+		dsek, _ := keysOf(l.device)
+		if string(dsek) != l.sek {
+			return ev.Failf("keys-changed-by-later-session", "%s/%s: the device-side key of session #%d no longer equals the owner-side key", suite, cipher, i)
+		}
+		enc, err := l.owner.Encrypt(rand.Reader, []byte("still-alive"))
+		if err != nil {
+			return ev.Failf("encrypt", "%s/%s: session #%d cannot encrypt any more: %v", suite, cipher, i, err)
+		}
+		wireb, _ := cbor.Marshal(enc)
+		if _, err := l.device.Decrypt(rand.Reader, bytes.NewReader(wireb)); err != nil {
+			return ev.Failf("decrypt", "%s/%s: session #%d: the device side cannot open the owner side's message after later sessions completed: %v", suite, cipher, i, err)
 		}
 	}
 	return ev.OK("fresh")
@@ -829,7 +855,7 @@ func TestC14(t *testing.T) {
 		return ev.OK("second-setparameter")
 	})
 
-	r.SetRule("fresh", "exhaustive over 6×7 pairs: three independent exchanges; no SEK, SVK or public parameter repeats, SEK and SVK do not overlap")
+	r.SetRule("fresh", "exhaustive over 6×7 pairs: three independent exchanges kept alive side by side; no SEK, SVK or public parameter repeats, SEK and SVK do not overlap, and after the last exchange every earlier session still has the keys it derived and still talks to its peer")
 	ev.Enum(r, "fresh", true, func(yield func(freshDesc) bool) {
 		i := 0
 		for _, s := range suites {
